@@ -88,9 +88,26 @@ type Stats struct {
 }
 
 type workItem struct {
+	// the prefix is base[:cut] followed by alt (materialised only when the item is popped: an
+	// execution that ran into the horizon has tens of thousands of decisions, and copying a prefix
+	// per alternative would be quadratic in memory)
+	base   []PrefixItem
+	cut    int
+	alt    PrefixItem
+	root   bool
 	prefix []PrefixItem
 	pb, db int
 	level  int
+}
+
+func (it *workItem) materialise() {
+	if it.root || it.prefix != nil {
+		return
+	}
+	it.prefix = make([]PrefixItem, it.cut+1)
+	copy(it.prefix, it.base[:it.cut])
+	it.prefix[it.cut] = it.alt
+	it.base = nil
 }
 
 func cloneOut(o *Outcome) {}
@@ -209,7 +226,8 @@ func Explore(cfg Config) (Stats, []Violation) {
 	for bi, b := range cfg.Bounds {
 		var execs int64
 		var c2 int64 // deterministic counter of level-2 nodes (sharding)
-		stack := []workItem{{nil, 0, 0, 0}}
+		stack := []workItem{{root: true}}
+		upperViolation := false // seen by a shard that does not own the upper levels: stop after this bound too
 		capped := false
 		for len(stack) > 0 {
 			// the base bound of a delay-bounded scenario (the default schedule and, with DB > 0, its
@@ -221,6 +239,7 @@ func Explore(cfg Config) (Stats, []Violation) {
 			}
 			it := stack[len(stack)-1]
 			stack = stack[:len(stack)-1]
+			it.materialise()
 			mine := true
 			if it.level >= 2 {
 				// whole subtrees below level 2 belong to one shard; decided when the level-2 node is popped
@@ -278,9 +297,22 @@ func Explore(cfg Config) (Stats, []Violation) {
 					}
 				}
 			}
+			if !(owned && mine) {
+				// levels 0 and 1 are counted and reported by shard 0 only, but every shard has to notice
+				// a counter-example there: it ends the search after this bound for all of them
+				if msg, sig := checkOne(&cfg, sc, out); msg != "" && !IsKnown(sig) {
+					upperViolation = true
+				}
+			}
 			cleanup(sc)
+			if out.End == "horizon" {
+				// a run that never ends is reported as it is; its tens of thousands of decisions are not
+				// expanded (every alternative would run into the horizon again)
+				continue
+			}
 			// children: alternatives at every decision after the prefix
 			var kids []workItem
+			var fullP []PrefixItem
 			for i := len(it.prefix); i < len(out.Decisions); i++ {
 				d := out.Decisions[i]
 				for alt := 1; alt < d.N; alt++ {
@@ -293,13 +325,13 @@ func Explore(cfg Config) (Stats, []Violation) {
 					if pb > b.PB || db > b.DB {
 						continue
 					}
-					np := make([]PrefixItem, i+1)
-					for j := 0; j < i; j++ {
-						dj := out.Decisions[j]
-						np[j] = PrefixItem{C: dj.Chosen, Kind: dj.Kind, N: dj.N, L: dj.Label}
+					if fullP == nil {
+						fullP = make([]PrefixItem, len(out.Decisions))
+						for j, dj := range out.Decisions {
+							fullP[j] = PrefixItem{C: dj.Chosen, Kind: dj.Kind, N: dj.N, L: dj.Label}
+						}
 					}
-					np[i] = PrefixItem{C: alt, Kind: d.Kind, N: d.N, L: d.Label}
-					kids = append(kids, workItem{np, pb, db, it.level + 1})
+					kids = append(kids, workItem{base: fullP, cut: i, alt: PrefixItem{C: alt, Kind: d.Kind, N: d.N, L: d.Label}, pb: pb, db: db, level: it.level + 1})
 				}
 			}
 			if it.level == 1 {
@@ -325,7 +357,7 @@ func Explore(cfg Config) (Stats, []Violation) {
 			break
 		}
 		st.Completed = fmt.Sprintf("PB=%d DB=%d", b.PB, b.DB)
-		unknown := false
+		unknown := upperViolation
 		for sig := range viol {
 			if !IsKnown(sig) {
 				unknown = true
